@@ -66,6 +66,8 @@ def norm(x: Any) -> Any:
         return ("map", frozenset((norm(k), norm(x[k])) for k in list(x.keys())))
     if isinstance(x, _abc.Set):
         return ("set", frozenset(norm(e) for e in x))
+    if isinstance(x, _abc.Sequence) and not isinstance(x, (str, bytes)):
+        return ("seq", tuple(norm(e) for e in x))
     return x
 
 
